@@ -775,6 +775,94 @@ class Gen:
 KINDS_DATA = ['data', 'data', 'data', 'headers', 'headers', 'man', 'subdir', 'subdir', 'emptydir', 'symlink', 'configure']
 
 
+GHOST = 'opt'
+GHOST_MARK = 'c11-failed-subproject-declared-all-its-rules'
+# how the parent asks for the optional subproject -> statement ({n} = subproject name, {d} = dependency name)
+GHOST_CALLERS = {
+    'subproject-required-false': "subproject('{n}', required: false)",
+    'dependency-fallback-list': "dependency('{d}', fallback: ['{n}', 'opt_dep'], required: false)",
+    'dependency-fallback-name': "dependency('{d}', fallback: '{n}', required: false)",
+    'dependency-wrap-provide': "dependency('{d}', required: false, allow_fallback: true)",
+    'subproject-version-mismatch': "subproject('{n}', required: false, version: '>=9.1')",
+}
+# how the subproject fails AFTER having declared its rules -> statement
+GHOST_FAILURES = {
+    'error': "error('the optional subproject gives up after declaring its install rules')",
+    'assert': "assert(1 == 2, 'the optional subproject cannot be built here')",
+    'missing-dependency': "dependency('c11-surely-missing-dependency-xyz')",
+    'missing-program': "find_program('c11-surely-missing-program-xyz')",
+}
+
+
+def add_failed_subproject(g: Gen, seed: T.Any, kind: str, body: T.List[str], force: T.Optional[T.Tuple[str, str]] = None,
+                          name: str = GHOST) -> T.Optional[dict]:
+    """Maybe add an optional subproject `name` that declares install rules of every kind and then fails
+    (error(), failed assert, missing required dependency/program, or the version the caller asks for is not met).
+    The reference manual: a subproject that is not required and fails is "not found"/disabled - it is not part of the build,
+    so the expected tree does not change.  What it declared is kept as `ghost.entries` (to name the mechanism when it shows up).
+    Uses its own random stream; appends the caller statement to `body` at a random position."""
+    gr = random.Random(f'c11ghost:{seed}:{name}')
+    if force is None and gr.random() >= 0.45:
+        return None
+    caller, failure = force or (gr.choice(sorted(GHOST_CALLERS)), gr.choice(sorted(GHOST_FAILURES)))
+    version: T.Optional[str] = gr.choice(['1.0', '9.0', None])
+    if caller == 'subproject-version-mismatch':
+        failure = 'version-undefined' if version is None else 'version-too-old'
+    sd = f'subprojects/{name}'
+    dep = f'c11-{name}-nodep'
+    pn = gr.choice([name, name + ' pröj'])
+    kinds = ['data', 'headers', 'man', 'emptydir', 'symlink', 'subdir', 'configure', 'data', 'script']
+    if kind in ('custom', 'c'):
+        kinds.append('custom')
+    if kind == 'c':
+        kinds.append('target')
+    gr.shuffle(kinds)
+    main_rng, g.rng = g.rng, gr
+    feats = set(g.features)
+    n0, r0 = len(g.entries), len(g.rules)
+    stmts: T.List[str] = []
+    declared: T.List[str] = []
+    try:
+        for k in kinds[:gr.randint(4, len(kinds))]:
+            snap = (dict(g.files), dict(g.dirs), list(g.entries), set(g.taken), len(g.rules))
+            stmt = getattr(g, 'rule_' + k)(sd, name, pn)
+            if stmt is None:
+                g.files, g.dirs, g.entries, g.taken = snap[0], snap[1], snap[2], snap[3]
+                del g.rules[snap[4]:]
+                continue
+            stmts.append(stmt)
+            declared.append(k)
+    finally:
+        g.rng = main_rng
+        g.features = feats
+    ghost_entries = g.entries[n0:]
+    ghost_rules = g.rules[r0:]
+    del g.entries[n0:]
+    del g.rules[r0:]
+    if not ghost_entries:
+        return None
+    for e in ghost_entries:
+        e['ghost_rule'] = e['rule'] - r0
+        e['rule'] = None
+    langs = ", 'c'" if 'target' in declared else ''
+    head = f"project({q(pn)}{langs}" + (f", version: {q(version)}" if version else '') + ", meson_version: '>=1.3.0')"
+    tail = [f"message('{GHOST_MARK}:{name}')"]
+    if failure in GHOST_FAILURES:
+        tail.append(GHOST_FAILURES[failure])
+    tail.append("opt_dep = declare_dependency()")
+    tail.append(f"meson.override_dependency('{dep}', opt_dep)")
+    g.files[f'{sd}/meson.build'] = {'content': '\n'.join([head] + stmts + tail) + '\n', 'mode': 0o644}
+    if caller == 'dependency-wrap-provide':
+        g.files[f'subprojects/{name}.wrap'] = {'content': f'[wrap-file]\ndirectory = {name}\n\n[provide]\n{dep} = opt_dep\n', 'mode': 0o644}
+    body.insert(gr.randint(0, len(body)), GHOST_CALLERS[caller].format(n=name, d=dep))
+    g.features.add('failed-subproject')
+    g.features.add('failed-subproject:caller:' + caller)
+    g.features.add('failed-subproject:failure:' + failure)
+    for k in declared:
+        g.features.add('failed-subproject:declares:' + k)
+    return {'name': name, 'caller': caller, 'failure': failure, 'declared': declared, 'entries': ghost_entries, 'rules': ghost_rules}
+
+
 def gen_project(seed: T.Any, kind: str, n_rules: T.Optional[int] = None, coincide: bool = False) -> dict:
     """One project spec: source tree, meson options, rules, expected entries.
     coincide: some absolute dirs / the prefix start with the placeholder DD (resolve_destdir() before use)."""
@@ -836,6 +924,9 @@ def gen_project(seed: T.Any, kind: str, n_rules: T.Optional[int] = None, coincid
         g.files['subprojects/sp/meson.build'] = {
             'content': f"project({q(g.sp_projname)}, meson_version: '>=1.3.0')\n" + '\n'.join(blocks['sp']) + '\n', 'mode': 0o644}
         g.features.add('layout:subproject')
+    # an OPTIONAL subproject that declares install rules of every kind and THEN fails: it is not part of the build, so
+    # none of its rules may be carried out (drawn from its own stream: the rest of the project is what it was without it)
+    ghost = add_failed_subproject(g, seed, kind, body)
     # fault-injection helper (drawn last so that it does not disturb the rest of the project): an install script that
     # SIGKILLs the installing process when the harness asks for it, and does nothing otherwise
     has_killer = r.random() < 0.5
@@ -850,6 +941,7 @@ def gen_project(seed: T.Any, kind: str, n_rules: T.Optional[int] = None, coincid
         'project_name': g.projname, 'options': g.opts, 'files': g.files, 'dirs': g.dirs, 'rules': g.rules,
         'entries': g.entries, 'features': sorted(g.features), 'tags': tags,
         'has_subproject': bool(blocks['sp']), 'needs_build': kind != 'data', 'has_killer': has_killer, 'coincide': coincide,
+        'ghosts': [ghost] if ghost else [], 'subprojects_in_build': ['sp'] if blocks['sp'] else [],
     }
 
 
@@ -1043,7 +1135,31 @@ def directed_probes() -> T.List[dict]:
     b1['histories'] = ['fresh', 'tags=man', 'tags=runtime,devel', 'tags=devel', 'tags=runtime', 'skip=sp', 'repeat']
     b1['tags'] = ['devel', 'man', 'runtime']
     b1['has_subproject'] = True
+    b1['subprojects_in_build'] = ['sp']
     probes.append(b1)
+    # B2: baseline (must hold): one parent rule + optional subprojects asked for in every way, each declaring install rules
+    # of every kind before failing in a different way: exactly the parent's rule is installed / planned / logged
+    g = Gen('probe:failed-optional-subprojects', 'data')
+    g.opts = {'prefix': '/usr', 'bindir': 'bin', 'libdir': 'lib', 'includedir': 'include', 'datadir': 'share',
+              'mandir': 'share/man', 'localedir': 'share/locale', 'install_umask': '022'}
+    g.projname = 'probe'
+    g.files['a.txt'] = {'content': 'a\n', 'mode': 0o644}
+    g.files['z.txt'] = {'content': 'z\n', 'mode': 0o644}
+    g.entry('share/p/a.txt', 'file', 0, 'data', '', None, src='a.txt', mode=0o644, uid=0, gid=0, mode_src='default')
+    g.entry('share/p/z.txt', 'file', 0, 'data', '', None, src='z.txt', mode=0o644, uid=0, gid=0, mode_src='default')
+    body = ["install_data('a.txt', install_dir: 'share/p')", "install_data('z.txt', install_dir: 'share/p')"]
+    ghosts = []
+    fails = sorted(GHOST_FAILURES)
+    for i, caller in enumerate(sorted(GHOST_CALLERS)):
+        gh = add_failed_subproject(g, 'probe', 'data', body, force=(caller, fails[i % len(fails)]), name=f'opt{i}')
+        if gh:
+            ghosts.append(gh)
+    g.files['meson.build'] = {'content': "project('probe', meson_version: '>=1.3.0')\n" + '\n'.join(body) + '\n', 'mode': 0o644}
+    probes.append({'seed': 'probe:failed-optional-subprojects', 'probe': 'failed-optional-subprojects', 'kind': 'data', 'backend': 'none',
+                   'project_name': 'probe', 'options': g.opts, 'files': g.files, 'dirs': g.dirs,
+                   'rules': [{'kind': 'data', 'sub': '', 'srcs': ['a.txt', 'z.txt'], 'install_dir': 'share/p', 'rename': None, 'preserve_path': False}],
+                   'entries': g.entries, 'features': sorted(g.features), 'tags': [], 'has_subproject': False, 'needs_build': False,
+                   'ghosts': ghosts, 'subprojects_in_build': [], 'histories': ['fresh', 'repeat']})
     return probes
 
 
